@@ -191,7 +191,9 @@ def systematic(rng: random.Random):
         out.append(Case([f"DELETE{w}FROM t"], "exotic-ws"))
         out.append(Case([f"SELECT 1{w};{w}"], "exotic-ws"))
     # the guards of the repaired sqlite3 handler: case folding, word boundaries, white space before "("
-    for g_ in ("SELECT writefile('x','y')", "SELECT WRITEFILE ('x','y')", "SELECT WriteFile\t\n('x','y')", "SELECT xwritefile('x','y')",
+    for g_ in ("SELECT \"writefile\"('x','y')", "SELECT [writefile]('x','y')", "SELECT `writefile`('x','y')", "SELECT writefile/**/('x','y')",
+               "SELECT writefile--\n('x','y')", "SELECT \"edit\"('x')", "SELECT writefile /* c */ ('x','y')",
+               "SELECT writefile('x','y')", "SELECT WRITEFILE ('x','y')", "SELECT WriteFile\t\n('x','y')", "SELECT xwritefile('x','y')",
                "SELECT write_file('x')", "SELECT edit('x')", "SELECT credit(1)", "SELECT load_extension('x')", "SELECT LOAD_EXTEN\u017fION('x')",
                "SELECT wr\u0131tefile('x')", "SELECT WR\u0130TEFILE('x')", "SELECT 'writefile' (1)", "SELECT writefile", "SELECT writefile\xa0('x','y')",
                "SELECT 1 -- edit(\n", "vacuum", "VACUUM INTO 'copy.db'", "VaCuUm;", "SELECT vacuum_ FROM t", "SELECT avacuum", "SELECT 'vacuum'", "SELECT \"vacuum\"x",
